@@ -956,3 +956,40 @@ impl CKBProtocolHandler for Relayer {
         );
     }
 }
+
+/// Verification hooks (cargo feature `verif-hooks`, off by default): re-exports so that an
+/// out-of-crate simulator can name `ReconstructionResult` and run the relayer's context-free
+/// verifiers exactly as `CompactBlockProcess` / `BlockTransactionsProcess` do.
+#[cfg(feature = "verif-hooks")]
+pub mod verif {
+    pub use super::ReconstructionResult;
+    use crate::Status;
+    use ckb_types::{core, packed};
+
+    /// `CompactBlockVerifier::verify`
+    pub fn compact_block_verify(block: &packed::CompactBlock) -> Status {
+        super::compact_block_verifier::CompactBlockVerifier::verify(block)
+    }
+
+    /// `BlockTransactionsVerifier::verify`
+    pub fn block_transactions_verify(
+        block: &packed::CompactBlock,
+        indexes: &[u32],
+        transactions: &[core::TransactionView],
+    ) -> Status {
+        super::block_transactions_verifier::BlockTransactionsVerifier::verify(
+            block,
+            indexes,
+            transactions,
+        )
+    }
+
+    /// `BlockUnclesVerifier::verify`
+    pub fn block_uncles_verify(
+        block: &packed::CompactBlock,
+        indexes: &[u32],
+        uncles: &[core::UncleBlockView],
+    ) -> Status {
+        super::block_uncles_verifier::BlockUnclesVerifier::verify(block, indexes, uncles)
+    }
+}
